@@ -10,8 +10,10 @@
 /* specification constants: which operation families are truly element-wise / how many vector operands they read */
 static const unsigned K_elementwise[9]={0,0,1,1,1,1,0,0,1};
 static const unsigned K_arity[9]      ={2,1,2,2,1,1,2,2,2};
+static const unsigned K_allowResize[3]={1,0,0};     /* only plain assignment may resize its target; += and -= never do (C09 C14) */
 
-unsigned fam, gflags; int wmode;                 /* instantiation under verification (fixed by the harness) */
+unsigned fam, gflags; int wmode;                 /* instantiation under verification (fixed by the harness); gflags = the Flags template argument */
+_Bool g_NoAlias, g_EqualSizes, g_Aligned;          /* which guarantees the user asserts: Flags is built from the library's own constants */
 #define HAS_G        (gflags!=0)
 #define tr_elementwise   (HAS_G ? GW_elementwise(gflags,TR_elementwise[fam])             : TR_elementwise[fam])
 #define tr_arity         (HAS_G ? GW_vector_arity(gflags,TR_vector_arity[fam])           : TR_vector_arity[fam])
@@ -117,7 +119,7 @@ __CPROVER_assigns(*self, ALLOC_FRAME, g_compute_calls, g_compute_target, g_compu
 __CPROVER_frees(self->components)
 __CPROVER_ensures(sq_thrown==0 || sq_thrown==1 || sq_thrown==2)
 /* C09/C14: only a size-changing assignment to external storage or a size-mismatched += / -= fails (bad_alloc aside) */
-__CPROVER_ensures(sq_thrown!=2 ==> ((sq_thrown==1) == (__CPROVER_old(self->size)!=__CPROVER_old(proxy->suv1->size) && (__CPROVER_old(self->isinit_d) || !W_allowResize))))
+__CPROVER_ensures(sq_thrown!=2 ==> ((sq_thrown==1) == (!g_EqualSizes && __CPROVER_old(self->size)!=__CPROVER_old(proxy->suv1->size) && (__CPROVER_old(self->isinit_d) || !K_allowResize[wmode]))))
 __CPROVER_ensures(sq_thrown==1 ==> (g_compute_calls==0 || g_compute_target!=self->components))                          /* ... without modifying v */
 __CPROVER_ensures(sq_thrown==1 ==> (self->dim==__CPROVER_old(self->dim) && self->size==__CPROVER_old(self->size) && self->components==__CPROVER_old(self->components)
                    && self->isinit==__CPROVER_old(self->isinit) && self->isinit_d==__CPROVER_old(self->isinit_d) && sq_live==__CPROVER_old(sq_live)))
@@ -194,10 +196,12 @@ void h_assignProxy(void){
   else if(alias==2 && two && !same_ab && !(p.flags&2)) tp=&b;
   else { mk(&t); if(alias==3 && t.isinit_d && a.isinit_d && t.dim==a.dim && !(p.flags&1)) t.components=a.components; }
   __CPROVER_assume(!(tp->isinit||tp->isinit_d) || tp->components!=NULL);
-  /* only TRUE guarantees may be asserted by the user */
+  /* the user writes guarantee<NoAlias|EqualSizes|AlignedStorage>(...) with the library's named constants, and only TRUE guarantees */
+  g_NoAlias=nondet_bool(); g_EqualSizes=nondet_bool(); g_Aligned=nondet_bool();
+  __CPROVER_assume(gflags == ((g_NoAlias?SQ_NoAlias:0u)|(g_EqualSizes?SQ_EqualSizes:0u)|(g_Aligned?SQ_AlignedStorage:0u)));
   int aliased = (tp->components==a.components) || (p.suv2->components==tp->components);
-  __CPROVER_assume(!(gflags&SQ_NoAlias) || !aliased);
-  __CPROVER_assume(!(gflags&SQ_EqualSizes) || tp->size==a.size);
+  __CPROVER_assume(!g_NoAlias || !aliased);
+  __CPROVER_assume(!g_EqualSizes || tp->size==a.size);
   assignProxy(tp,&p);
   __CPROVER_assert(0,"REACH end of harness");
 }
